@@ -326,6 +326,7 @@ Section Own.
     - apply STEP. apply SJR_play. left. exact H.
     - apply STEP. apply SJR_play. right. exact H.
     - apply STEP. apply CORE. repeat split.
+    - apply STEP. apply CORE. unfold x_setbeats. destruct (nth_error (n_tcs (x_n st)) i); repeat split.
     - apply STEP. apply SJR_seed. exact H.
     - apply STEP. apply SJR_draw. exact H.
     - destruct (nth_error (x_conds st) c) as [[t ws]|]; [|simpl; eapply SJR_nil; eauto].
